@@ -22,7 +22,7 @@ UNIT = {
     'crate_attrs': ['#![feature(panic_internals)]'],
     'vacuity_floor': 6,
     'items': [
-        ('@raw', 'pub mod expansion { pub struct ErrorCause { pub verif_opaque: u8 } }\npub mod rd {\n' + MOD_HEAD),
+        ('@raw', 'pub mod expansion { pub struct ErrorCause { pub verif_opaque: u8 } }\npub mod system { pub type Result<T> = core::result::Result<T, crate::rd::Errno>; }\npub mod rd {\n' + MOD_HEAD),
         ('yash-env/src/system/errno.rs', ['struct Errno']),
         ('yash-env/src/io.rs', ['struct Fd']),
         ('yash-env/src/io.rs', ['impl Fd']),
@@ -55,6 +55,18 @@ UNIT = {
             ]}),
         (RD, ['fn is_cloexec'], {'ret': 'r',
             'ensures': ['r == (env.system.table().contains_key(fd) && env.system.table()[fd].cloexec)']}),
+        # the other way the shell makes a descriptor its own (dot scripts, the script file, init files): moved to >= 10
+        ('yash-env/src/io.rs', ['fn move_fd_internal'], {'ret': 'r', 'mut_params': ['system'],
+            'ensures': [
+                # a descriptor the shell keeps for itself is at 10 or above ...
+                'r matches Ok(new) ==> new.0 >= 10 && final(system).table().contains_key(new) == (from.0 >= 10 ==> old(system).table().contains_key(from))',
+                # ... close-on-exec when it had to be moved, referring to the same open file description, and the low
+                # descriptor is given back: nothing is left behind below 10, whether the move worked or not
+                'from.0 < 10 && !old(system).close_fails(from) ==> !final(system).table().contains_key(from)',
+                'from.0 < 10 ==> (r matches Ok(new) ==> !old(system).table().contains_key(new) && old(system).table().contains_key(from) && final(system).table()[new] == (Ofd { id: old(system).table()[from].id, cloexec: true }))',
+                'forall|fd: Fd| fd != from && !(r matches Ok(new) && new == fd) ==> (#[trigger] final(system).table().contains_key(fd) <==> old(system).table().contains_key(fd)) && (old(system).table().contains_key(fd) ==> final(system).table()[fd] == old(system).table()[fd])',
+                'from.0 >= 10 ==> r == Ok::<Fd, Errno>(from) && final(system).table() == old(system).table()',
+            ]}),
         (RD, ['const MODE'], {'attrs': ['#[verifier::external_body]']}),
         (RD, ['fn into_c_string_value_and_origin'], {'ret': 'r'}),
         (RD, ['fn open_file'], {'ret': 'r', 'rewrites': ['strip-async'],
